@@ -348,6 +348,25 @@ def r18_3(ctx, m):
             eff = effect_of(s)
             if eff:
                 outside.append((s, eff))
+    # files created per requested chromosome in another loop of the command (a "can we write here?" probe before the work
+    # starts): a chromosome that is skipped later leaves its empty files behind
+    order_names = {x_.id for x_ in ast.walk(m.loop.iter) if isinstance(x_, ast.Name)}
+    for lp_ in walk_own(run.node):
+        if isinstance(lp_, ast.For) and lp_ is not m.loop and not any(y_ is lp_ for y_ in ast.walk(m.loop)) and order_names & {x_.id for x_ in ast.walk(lp_.iter) if isinstance(x_, ast.Name)}:
+            for c_ in ast.walk(lp_):
+                if isinstance(c_, ast.Call) and norm(c_.func) in ("open", "io.open") and len(c_.args) >= 2 and isinstance(c_.args[1], ast.Constant) and isinstance(c_.args[1].value, str) and c_.args[1].value[:1] in ("w", "a", "x"):
+                    ctx.violated("R18.3", run.where(c_), f"`{norm(c_)[:50]}` creates a file for every requested chromosome before it is known whether the chromosome can be ordered: a chromosome that is skipped later leaves its (empty) files in the output directory, which differs from a run in which it was not requested", key_of(run, f"file-created-before-outcome:{norm(c_.args[0])[:30]}"))
+    # an effect of the success branch that happens only for the first *requested* chromosome (`chromosome == order[0]`): when that
+    # one is skipped the effect (a header line) never happens, so the other chromosomes' output depends on it
+    from .c09 import guards_of as _gof18
+
+    lv_ = norm(m.loop.target)
+    for s_ in walk_stmts(m.success_body):
+        if effect_of(s_):
+            for t_, _p in _gof18(run.node, s_):
+                for q_ in ast.walk(t_):
+                    if isinstance(q_, ast.Compare) and len(q_.ops) == 1 and isinstance(q_.ops[0], (ast.Eq, ast.NotEq, ast.Is, ast.IsNot)) and {norm(q_.left), norm(q_.comparators[0])} & {lv_} and any(isinstance(x_, ast.Subscript) and isinstance(x_.value, ast.Name) and x_.value.id in order_names and const_value(x_.slice, None) in (0, -1) for x_ in ast.walk(q_)):
+                        ctx.violated("R18.3", run.where(s_), f"`{norm(s_)[:50]}` happens only when `{norm(q_)[:50]}`, i.e. for the chromosome named first in the requested order: when that chromosome cannot be ordered and is skipped, it happens for none, so what is written for the others (the header of the complete table) depends on a component they have nothing to do with", key_of(run, f"effect-tied-to-first-requested:{norm(q_)[:40]}"))
     inside = [(s, effect_of(s)) for s in walk_stmts(m.success_body) if effect_of(s)]
     ctx.require_count("R18.3", len(inside), 3, run.where(m.success_if), "effects (tag stores, writes, registrations) inside the success branch")
     if outside:
